@@ -299,8 +299,7 @@ def inproc(ctx):
         "ok_emb %s %s" % (F.coq_forest(cases[i]["forest"]), mcgen.coq_recs(cases[i]["res"]["recs"])) for i in embi)
     plain = [(i, c02.coq_plain_check(c["cfg"], c["forest"], c["res"]["recs"])) for i, c in enumerate(cases)
              if is_plain(c["cfg"]) and c["complete"] and not (c["cfg"].get("threshold") and
-                                                              c02.height(c["forest"]) > (c["cfg"].get("max_stack") or 1024))
-             and ((c["cfg"].get("threshold") or 0) > 0 or c02.positive(c["forest"]))]
+                                                              c02.height(c["forest"]) > (c["cfg"].get("max_stack") or 1024))]
     defs += "Definition plainchk : list bool := [\n%s\n].\n" % ";\n".join(t for _, t in plain)
     pair_terms = ["(%s, %s, %s, %s)" % (F.coq_cfg(p["cfg"], mch.SIZES), F.coq_events(p["evs"]),
                                         mcgen.coq_recs(p["pg"]["recs"]), mcgen.coq_recs(p["cyg"]["recs"])) for p in pairs]
